@@ -168,6 +168,22 @@ def run(prop, repo, seed):
         table.append(dict(variant=f"renaming of all function-local variables in {relpath}", kind="preserving", outcome=out, detail=detail))
         if out != base_out:
             broken.append(f"behaviour-preserving renaming of locals in {relpath} changed the verdict to {out}: {detail}")
+    # mechanical whole-module refactorings (refactor.py): every site of each kind at once
+    from . import refactor
+    for relpath in files:
+        m = [x for x in repo.modules.values() if x.relpath == relpath]
+        if not m:
+            continue
+        base_out, _ = run_variant(prop, repo)
+        for title, fn in refactor.MECHANICAL:
+            new_tree = fn(m[0].tree)
+            if ast.dump(new_tree) == ast.dump(m[0].tree):
+                continue
+            v = repo.variant(relpath, ast.unparse(new_tree).encode("utf-8"))
+            out, detail = run_variant(prop, v)
+            table.append(dict(variant=f"{title} in {relpath}", kind="preserving", outcome=out, detail=detail))
+            if out != base_out:
+                broken.append(f"behaviour-preserving rewrite ({title}) of {relpath} changed the verdict to {out}: {detail}")
     base_out, _ = run_variant(prop, repo)
     for name, relpath, old, new in preserving:
         v = make_variant(repo, relpath, old, new)
@@ -209,9 +225,39 @@ def run(prop, repo, seed):
                     broken.append(f"seeded change {sid}, on record as caught by {prop}, is no longer reported ({out}: {detail})")
             finally:
                 shutil.rmtree(tmp, ignore_errors=True)
+    # behaviour-preserving changes written by independent refactoring sub-agents (benign/<id>/): the verdict must not move
+    benign_dir = os.path.join(core.VERIF, "benign")
+    n_benign = 0
+    if os.path.isdir(benign_dir) and repo.root and os.path.isdir(os.path.join(repo.root, "forsys")):
+        for bid in sorted(os.listdir(benign_dir)):
+            pp = os.path.join(benign_dir, bid, "patch.diff")
+            if not os.path.isfile(pp):
+                continue
+            touched = {l.split(" b/", 1)[1].strip() for l in open(pp, errors="replace") if l.startswith("diff --git ") and " b/" in l}
+            if not (touched & set(files)):
+                continue
+            tmp = tempfile.mkdtemp(prefix="fsv_benign.")
+            try:
+                shutil.copytree(os.path.join(repo.root, "forsys"), os.path.join(tmp, "forsys"), ignore=shutil.ignore_patterns("__pycache__"))
+                subprocess.run(["git", "init", "-q", "."], cwd=tmp, stdout=subprocess.DEVNULL, stderr=subprocess.DEVNULL)
+                r = subprocess.run(["git", "apply", "--whitespace=nowarn", pp], cwd=tmp, stdout=subprocess.DEVNULL, stderr=subprocess.DEVNULL)
+                if r.returncode != 0:
+                    table.append(dict(variant=f"refactoring {bid}", kind="preserving", outcome="not-applicable (patch does not apply to this tree)"))
+                    continue
+                out, detail = run_variant(prop, Repo.load(tmp))
+                n_benign += 1
+                try:
+                    title = json.load(open(os.path.join(benign_dir, bid, "meta.json"))).get("title", "")
+                except Exception:
+                    title = ""
+                table.append(dict(variant=f"refactoring {bid}: {str(title)[:100]}", kind="preserving", outcome=out, detail=detail))
+                if out != base_out:
+                    broken.append(f"behaviour-preserving refactoring {bid} changed the verdict to {out}: {detail}")
+            finally:
+                shutil.rmtree(tmp, ignore_errors=True)
     from . import sym
     sym._cache.clear()
-    extra = dict(selftest=dict(seeded_changes_rechecked=n_seed, variants=len(table), applied=n_applied,
+    extra = dict(selftest=dict(seeded_changes_rechecked=n_seed, refactorings_rechecked=n_benign, variants=len(table), applied=n_applied,
                                killed=sum(1 for t in table if t["kind"] == "breaking" and t.get("outcome") == "violation"),
                                table=table))
     if broken:
